@@ -89,4 +89,37 @@ example : WinValid 3 (some 1) (some 2) := by decide
 example : ((readBytes sampleFile none { startFrame := some 1, endFrame := some 2 }).map (·.1.body.data)) = some [5, 6, 7, 8] := by decide +kernel
 example : ((readStream sampleFile none { startFrame := some 1, endFrame := some 2 }).map (·.1.1.body.data)) = some [5, 6, 7, 8] := by decide +kernel
 
+/-! ### windows tile the file; a window of a window -/
+
+theorem take_drop_tile {α : Type} (l : List α) (s n m row : Nat) :
+    (l.drop (s * row)).take (n * row) ++ (l.drop ((s + n) * row)).take (m * row) = (l.drop (s * row)).take ((n + m) * row) := by
+  rw [Nat.add_mul s n row, Nat.add_mul n m row, List.take_add, ← List.drop_drop]
+
+/-- **Adjacent windows tile the file**: the frames `[s, s + n)` followed by the frames `[s + n, s + n + m)` are exactly the frames `[s, s + n + m)` —
+    no frame is lost, duplicated or reordered at a window boundary, for coordinates, confidences and the missing pattern alike. -/
+theorem adjacent_windows_tile (b : Body) (s n m : Nat) :
+    (b.slice s n).data ++ (b.slice (s + n) m).data = (b.slice s (n + m)).data ∧
+    (b.slice s n).conf ++ (b.slice (s + n) m).conf = (b.slice s (n + m)).conf ∧
+    (b.slice s n).missing ++ (b.slice (s + n) m).missing = (b.slice s (n + m)).missing ∧
+    (b.slice s n).frames + (b.slice (s + n) m).frames = (b.slice s (n + m)).frames := by
+  obtain ⟨f1, _, d1, c1, m1⟩ := slice_spec b s n
+  obtain ⟨f2, _, d2, c2, m2⟩ := slice_spec b (s + n) m
+  obtain ⟨f3, _, d3, c3, m3⟩ := slice_spec b s (n + m)
+  rw [d1, d2, d3, c1, c2, c3, m1, m2, m3, f1, f2, f3]
+  exact ⟨take_drop_tile _ _ _ _ _, take_drop_tile _ _ _ _ _, take_drop_tile _ _ _ _ _, rfl⟩
+
+/-- a window of a window is a window of the file: frames `[t, t + k)` of the frames `[s, s + n)` are the frames `[s + t, s + t + k)` whenever they lie inside -/
+theorem slice_data_of_slice {α : Type} (l : List α) (s n t k row : Nat) (h : t + k ≤ n) :
+    (((l.drop (s * row)).take (n * row)).drop (t * row)).take (k * row) = (l.drop ((s + t) * row)).take (k * row) := by
+  rw [List.drop_take, List.take_take, List.drop_drop, Nat.add_mul]
+  have : k * row ≤ n * row - t * row := by
+    rw [← Nat.sub_mul]; exact Nat.mul_le_mul_right row (by omega)
+  rw [Nat.min_eq_left this]
+
+/-! non-vacuity: a two-frame body; frame 0 followed by frame 1 is the whole body -/
+def tileBody : Body :=
+  { fps := .f32 0x41C80000, frames := 2, people := 1, points := 2, dims := 2,
+    data := [1, 2, 3, 4, 5, 6, 7, 8], conf := [0x3F800000, 0, 0x3F800000, 0x3F800000], missing := [] }
+example : (tileBody.slice 0 1).data = [1, 2, 3, 4] ∧ (tileBody.slice 1 1).data = [5, 6, 7, 8] ∧
+    (tileBody.slice 0 1).data ++ (tileBody.slice 1 1).data = tileBody.data ∧ (tileBody.slice 0 2).conf = tileBody.conf := by decide +kernel
 end PoseVerif.Props.C03
